@@ -43,6 +43,8 @@ def plan(tier, seed):
         shards.append({"kind": "reload", "seed": seed, "start": start, "count": per})
     for start in range(0, n_ns // 3, per):
         shards.append({"kind": "faulted", "seed": seed, "start": start, "count": per})
+    for start in range(0, n_ns // 3, per):
+        shards.append({"kind": "caller_named", "seed": seed, "start": start, "count": per})
     for s in shards:
         s["tier"] = tier
     return shards
@@ -134,6 +136,39 @@ def fault_prefix(case, ctx):
     return b
 
 
+def caller_named_inserts(scfg, case, ctx):
+    """The caller places blocks with the public insert_* methods under names of
+    ITS OWN choosing that look like generated ones, at or ahead of the index
+    the generator has reached (insert_SyntheticTail("synth_tail_block_0", ...)):
+    every name requested afterwards must still be new."""
+    from numba_scfg.core.datastructures.basic_block import (
+        SyntheticFill, SyntheticTail, SyntheticExit, SyntheticReturn)
+
+    rng = random.Random(core.sha([case["g"], "caller_named"]))
+    kinds = [("synth_fill", SyntheticFill), ("synth_tail", SyntheticTail),
+             ("synth_exit", SyntheticExit), ("synth_return", SyntheticReturn)]
+    for _ in range(rng.randint(1, 3)):
+        names = list(scfg.graph)
+        p = rng.choice(names)
+        succ = [t for t in scfg.graph[p].jump_targets if t in scfg.graph]
+        kind, ty = rng.choice(kinds)
+        idx = scfg.name_gen.kinds.get(kind, 0) + rng.choice([0, 0, 1, 2])
+        new = f"{kind}_block_{idx}"
+        if new in scfg.graph:
+            continue
+        try:
+            if rng.random() < 0.3 and succ:
+                new = f"synth_head_block_{scfg.name_gen.kinds.get('synth_head', 0) + rng.choice([0, 1])}"
+                if new in scfg.graph:
+                    continue
+                scfg.insert_block_and_control_blocks(new, [p], succ[:1])
+            else:
+                scfg.insert_block(new, [p], succ[:1], ty)
+            ctx.hit("c18.caller_named_inserts")
+        except Exception:
+            ctx.hit("c18.caller_named_insert_refused")
+
+
 def staged(case, acc, reloads):
     """Run J,L,B on the graph; `reloads` maps a stage boundary (0..2) to 'dict'/'yaml'."""
     from numba_scfg.core.datastructures.scfg import SCFG
@@ -145,6 +180,9 @@ def staged(case, acc, reloads):
     g = {k: tuple(v) for k, v in case["g"].items()}
     if case.get("fault"):
         scfg = fault_prefix(case, ctx)
+    elif case.get("caller_named"):
+        scfg = drivers.make_scfg(g, "bytecode", case.get("how", "ctor"))
+        caller_named_inserts(scfg, case, ctx)
     else:
         scfg = drivers.make_scfg(g, "bytecode", case.get("how", "ctor"))
     before_all = set(g)
@@ -220,6 +258,13 @@ def run_shard(spec):
             staged({"kind": "namespace", "g": g, "reloads": {}, "how": how}, acc, {})
             acc.counters["namespace_graphs"] += 1
             acc.counters["namespace_graphs.built_by_" + how] += 1
+    elif k == "caller_named":
+        for i in range(spec["start"], spec["start"] + spec["count"]):
+            g = graphs.make_case(["loop", "struct", "rand_small", "rand"][i % 4], spec["seed"], 400000 + i)
+            if g is None:
+                continue
+            staged({"kind": "caller_named", "g": g, "reloads": {}, "caller_named": True}, acc, {})
+            acc.counters["caller_named_histories"] += 1
     elif k == "faulted":
         for i in range(spec["start"], spec["start"] + spec["count"]):
             g = graphs.make_case("names_namespace" if i % 4 else "loop", spec["seed"], 300000 + i)
